@@ -52,7 +52,7 @@ ASSUMPTIONS = [
 EXTRA_CANON = {}      # set by the value-variation stream: same ids, different values, same process
 
 def canon(desc, symptom, **kw):
-    return dict(op='transient', symptom=symptom, **gs.facts(desc), **EXTRA_CANON, **kw)
+    return dict(op='transient', symptom=symptom, **gs.facts(desc), **({'si_units': True} if 'si' in desc else {}), **EXTRA_CANON, **kw)
 
 def make_inputs(rng, desc, sources, n):
     """piecewise-linear profiles with breakpoints on the grid, zero at the first sample, constant
@@ -125,14 +125,32 @@ def check_case(ctx, out, desc, origin='random'):
     A = np.asarray(im.ssm.A, dtype=float); B = np.asarray(im.ssm.B, dtype=float)
     if not (np.all(np.isfinite(A)) and np.all(np.isfinite(B))):
         out.spec_fail(canon(desc, 'non_finite'), 'state-space matrices are not finite', inp, desc=desc); return
-    if max([c10.cond_of(p) for p in im.inverses] + [1.0]) > 1e6:
-        out.skip('ill_conditioned'); return
+    si_mode = 'si' in desc
+    cnd = max([c10.cond_of(p) for p in im.inverses] + [1.0])
+    if not cnd <= (c10.SI_COND_GUARD if si_mode else 1e6):
+        out.skip('si_ill_conditioned' if si_mode else 'ill_conditioned'); return
+    if si_mode: out.count('si_cases')
     src_ids = [c['id'] for c in comps if c['kind'] in ('V', 'I', 'I0', 'Iac')]
-    tin, settle = grid_for(A)
-    n = len(tin); h = tin[1] - tin[0]
+    # the time grid resolves the circuit's own time constants: taken from the MODEL's state matrix in the
+    # unit-scale stream (independent of the implementation's A), from the implementation's otherwise
+    Aref = A
+    if si_mode and drv is not None:
+        m0 = drv.call('ss_model', net=gen_net.impl_to_json(im.network), cvals=gs.dict_items(im.cvals),
+                      lvals=gs.dict_items(im.lvals), pots=[], ids=[], spots=[], sids=[])
+        if 'A' in m0 and len(m0['A']) == A.shape[0]:
+            Aref = np.array([[core.cfloat(x).real for x in r] for r in m0['A']]).reshape(A.shape)
+    tin0, settle = grid_for(Aref)
+    n = len(tin0); h = tin0[1] - tin0[0]
+    # time window: the requested grid starts at t0 = m·h — zero, small, large (exact in binary64); negative
+    # start times are outside the domain (scipy.signal.lsim refuses them: 'Initial time must be nonnegative')
+    t0 = h * rng.choice([0, 0, 5, 37, 1000, 2 ** 16, 1, 2 ** 20])
+    tin = t0 + tin0
+    out.count('window:' + ('t0=0' if t0 == 0 else 't0>0' if t0 > 0 else 't0<0'))
     prof, k_const = make_inputs(rng, desc, src_ids, n)
     given = list(src_ids); rng.shuffle(given)
-    inputs = {s: (lambda p: (lambda t: p.copy()))(prof[s]) for s in given}
+    # the inputs are genuine functions of time: piecewise linear with breakpoints on the REQUESTED grid
+    mk_inputs = lambda grid: {s: (lambda p: (lambda t: np.interp(t, grid, p)))(prof[s]) for s in given}
+    inputs = mk_inputs(tin)
     try:
         sol = TransientSolution(im.circuit, tin=tin, input=inputs)
         sources = list(sol._ssm.sources)
@@ -160,34 +178,54 @@ def check_case(ctx, out, desc, origin='random'):
         return
     def fail(symptom, what, **kw):
         out.spec_fail(canon(desc, symptom), what, inp, impl=dict(A=A.tolist(), B=B.tolist(), sources=sources, **kw), desc=desc,
-                      profiles={k: v.tolist() for k, v in prof.items()} if n <= 200 else None, n=n, h=h)
+                      profiles={k: v.tolist() for k, v in prof.items()} if n <= 200 else None, n=n, h=h, t0=t0)
     # every source drives the simulation; `_u` rows follow `sources`
     if sorted(sources) != sorted(src_ids):
         return fail('source_missing', f'sources of the simulated model {sources} are not the circuit\'s sources {sorted(src_ids)}: '
                     f'the waveform supplied for {sorted(set(src_ids) - set(sources))} is ignored')
+    if tout.shape != tin.shape or not np.array_equal(tout, tin):
+        return fail('time_axis', f'the returned time vector is not the requested one: requested [{tin[0]}, …, {tin[-1]}] '
+                    f'({len(tin)} samples), returned [{tout[0] if tout.size else None}, …, {tout[-1] if tout.size else None}] ({tout.size} samples)')
     for k, s in enumerate(sources):
         if not np.array_equal(U[k], prof[s]):
-            return fail('input_order', f'row {k} of _u is not the waveform of sources[{k}] = {s!r}')
-    if not (np.array_equal(tout, tin) and X.shape == (A.shape[0], n)):
-        return fail('shape', f'time / state samples have shapes {tout.shape}, {X.shape}')
+            other = [s2 for s2 in sources if s2 != s and np.array_equal(U[k], prof[s2])]
+            if other:
+                return fail('input_order', f'row {k} of _u is the waveform of {other[0]!r}, not of sources[{k}] = {s!r}')
+            return fail('input_sampling', f'row {k} of _u is not the waveform of sources[{k}] = {s!r} evaluated at the requested '
+                        f'times (window starts at t0 = {t0}): first differing sample {int(np.argmax(U[k] != prof[s]))}')
+    if X.shape != (A.shape[0], n):
+        return fail('shape', f'state samples have shape {X.shape}')
     allv = [pot[l] for l in labels] + list(vol.values()) + list(cur.values())
     if not all(np.all(np.isfinite(a)) for a in allv + [X]):
         return fail('non_finite', 'non-finite simulated values')
     scale = max(1.0, max(float(np.max(np.abs(a))) for a in allv + [X]))
     tol = 1e-9 * scale
+    tolv = toli = tol                     # ordinary (dyadic, order-one) circuits: one scale
+    if si_mode:                           # SI units: voltages and currents each against their own magnitude
+        rs = [c['val'] for c in comps if c['kind'] == 'R'] or [1.0]
+        sv = max([float(np.max(np.abs(a))) for a in list(pot.values()) + list(vol.values())] + [0.0])
+        si_ = max([float(np.max(np.abs(a))) for a in cur.values()] + [0.0])
+        sv, si_ = max(sv, si_ * min(rs)), max(si_, sv / max(rs))
+        rel = max(1e-8, c10.si_tolerance(cnd))
+        tolv, toli = rel * sv, rel * si_
+        if sv == 0 and si_ == 0:
+            return fail('no_response', 'all simulated outputs are identically zero although the sources are driven')
+    tk = lambda kind: toli if kind == 'i' else tolv
+    kinds_of_state = ['v'] * len(im.cvals) + ['i'] * len(im.lvals)
     # start from rest
-    if np.max(np.abs(X[:, 0])) > 0 or max(abs(a[0]) for a in allv) > tol:
+    if np.max(np.abs(X[:, 0])) > 0 or max(abs(a[0]) for a in list(pot.values()) + list(vol.values())) > tolv \
+       or max(abs(a[0]) for a in cur.values()) > toli:
         return fail('not_at_rest', f'first sample is not at rest: x0={X[:, 0].tolist()}')
     # Kirchhoff's voltage law and reference potential
-    if np.max(np.abs(pot[desc['ground']])) > tol:
+    if np.max(np.abs(pot[desc['ground']])) > tolv:
         return fail('reference', 'reference potential is not zero')
     for c in comps:
-        if np.max(np.abs(vol[c['id']] - (pot[c['n1']] - pot[c['n2']]))) > tol:
+        if np.max(np.abs(vol[c['id']] - (pot[c['n1']] - pot[c['n2']]))) > tolv:
             return fail('kvl', f'voltage of {c["id"]!r} is not the difference of its terminal potentials')
     # Kirchhoff's current law at every node, every sample
     for l in labels:
         res = sum((cur[c['id']] if c['n1'] == l else 0) - (cur[c['id']] if c['n2'] == l else 0) for c in comps)
-        if np.max(np.abs(res)) > tol * len(comps):
+        if np.max(np.abs(res)) > toli * len(comps):
             k = int(np.argmax(np.abs(res)))
             return fail('kcl', f'KCL residual {res[k]:.6g} at node {l!r}, sample {k} (t={tin[k]})',
                         currents={i: float(cur[i][k]) for i in ids})
@@ -196,40 +234,54 @@ def check_case(ctx, out, desc, origin='random'):
     order = list(im.cvals.keys()) + list(im.lvals.keys())
     for c in comps:
         i, k = c['id'], c['kind']
-        if k == 'R' and np.max(np.abs(vol[i] - c['val'] * cur[i])) > tol * max(1.0, c['val']):
+        if k == 'R' and np.max(np.abs(vol[i] - c['val'] * cur[i])) > (tolv + c['val'] * toli if si_mode else tol * max(1.0, c['val'])):
             return fail('element_law', f'resistor {i!r}: v ≠ R·i', kind=k)
-        if k == 'V' and np.max(np.abs(vol[i] - prof[i])) > tol:
+        if k == 'V' and np.max(np.abs(vol[i] - prof[i])) > tolv:
             return fail('element_law', f'voltage source {i!r}: v ≠ u(t)', kind=k)
-        if k == 'I' and np.max(np.abs(cur[i] - prof[i])) > tol:
+        if k == 'I' and np.max(np.abs(cur[i] - prof[i])) > toli:
             return fail('element_law', f'current source {i!r}: i ≠ u(t)', kind=k)
         if k == 'C':
             s = order.index(i)
-            if np.max(np.abs(vol[i] - X[s])) > tol:
+            if np.max(np.abs(vol[i] - X[s])) > tolv:
                 return fail('state_identity', f'capacitor {i!r}: its voltage is not state {s}', kind=k)
-            if np.max(np.abs(cur[i] - c['val'] * Xdot[s])) > tol * max(1.0, float(np.max(np.abs(Xdot)))):
+            if np.max(np.abs(cur[i] - c['val'] * Xdot[s])) > (toli + 1e-9 * c['val'] * float(np.max(np.abs(Xdot[s]))) if si_mode
+                                                              else tol * max(1.0, float(np.max(np.abs(Xdot))))):
                 return fail('element_law', f'capacitor {i!r}: i ≠ C·dv/dt', kind=k)
         if k == 'L':
             s = order.index(i)
-            if np.max(np.abs(cur[i] - X[s])) > tol:
+            if np.max(np.abs(cur[i] - X[s])) > toli:
                 return fail('state_identity', f'inductor {i!r}: its current is not state {s}', kind=k)
-            if np.max(np.abs(vol[i] - c['val'] * Xdot[s])) > tol * max(1.0, float(np.max(np.abs(Xdot)))):
+            if np.max(np.abs(vol[i] - c['val'] * Xdot[s])) > (tolv + 1e-9 * c['val'] * float(np.max(np.abs(Xdot[s]))) if si_mode
+                                                              else tol * max(1.0, float(np.max(np.abs(Xdot))))):
                 return fail('element_law', f'inductor {i!r}: v ≠ L·di/dt', kind=k)
     out.count('samples_checked', n)
     # exact response of the linear system for piecewise-linear inputs (support for lsim)
     if A.size:
         Xe = expm_response(A, B, U, h)
-        if np.max(np.abs(Xe - X)) > 1e-7 * scale:
+        tolx = np.array([100 * tk(kd) for kd in kinds_of_state]).reshape(-1, 1)
+        if np.any(np.abs(Xe - X) > tolx):
             k = int(np.argmax(np.max(np.abs(Xe - X), axis=0)))
             return fail('not_exact_response', f'state samples differ from the exact piecewise-linear response by '
                         f'{np.max(np.abs(Xe - X)):.3g} (sample {k})')
         out.count('expm_checked')
+    # shift invariance: the same waveforms on the window [0, T] give the same samples
+    if t0 != 0:
+        try:
+            sol0 = TransientSolution(im.circuit, tin=tin0, input=mk_inputs(tin0))
+            X0 = np.asarray(sol0._x, dtype=float)
+            if not np.array_equal(np.asarray(sol0.t), tin0) or X0.shape != X.shape or np.any(np.abs(X0 - X) > tolx if A.size else False):
+                return fail('shift_invariance', f'the simulation on the window starting at t0 = {t0} differs from the same '
+                            f'waveforms simulated on the window starting at 0')
+            out.count('shift_invariance_checked')
+        except Exception as e:
+            return fail('raises', f'simulation on the zero-based window raises {type(e).__name__}: {e}')
     # settling to the DC solution for constant inputs
     if settle and not f['zero_valued_current_source']:
         dc = DCSolution(im.circuit)
         for key, series, ref in ([(('pot', l), pot[l], dc.get_potential(l)) for l in labels] +
                                  [(('v', i), vol[i], dc.get_voltage(i)) for i in ids] +
                                  [(('i', i), cur[i], dc.get_current(i)) for i in ids]):
-            if abs(series[-1] - ref) > 1e-7 * scale:
+            if abs(series[-1] - ref) > 100 * tk('i' if key[0] == 'i' else 'v'):
                 return fail('not_settled', f'{key}: final value {series[-1]} but DCSolution reports {ref}')
         out.count('settled_to_dc')
     else:
@@ -267,7 +319,7 @@ def check_case(ctx, out, desc, origin='random'):
                     out.disagree('ss_transient.x0', inp, 'zeros', r['x0'])
                 for key, y in zip(keys, r['y']):
                     series = {'pot': pot, 'v': vol, 'i': cur}[key[0]][key[1]]
-                    if not gs.vec_agree(series[:T], y, 1e-9 * scale):
+                    if not gs.vec_agree(series[:T], y, 1e-9 * scale) and not si_mode:
                         out.disagree('ss_transient.' + key[0], inp, series[:T].tolist(), [core.cfloat(z) for z in y], id=key[1])
                         break
                 else:
@@ -285,9 +337,16 @@ def run(ctx, out):
     out.rule = ('RLC + ideal-source circuits (generator of C10) × piecewise-linear source waveforms with breakpoints on a dyadic '
                 'uniform grid resolving the fastest time constant (steps as one-sample ramps, ramps, triangles; zero at the first '
                 'sample, constant over the last two thirds); non-trivial when the circuit is non-degenerate (decided exactly); '
-                'distinct by (node count, kind multiset, names-interleave, inductor-order)')
+                'distinct by (node count, kind multiset, names-interleave, inductor-order); the waveforms are genuine functions '
+                'of time and the requested window starts at t0 = m·h with m ∈ {0, 1, 5, 37, 1000, 2^16, 2^20} (returned time axis, '
+                'input sampling at the requested times, shift invariance against the zero-based window); unit-scale stream: the '
+                'same circuits in SI units (R mΩ…GΩ, C pF…F, L nH…H; exact decade scalings and log-uniform values), voltages and '
+                'currents each against their own magnitude; revisit stream: same ids, only L / C values changed, same process, '
+                'both orders')
     for desc in CORPUS:
         check_case(ctx, out, desc, 'corpus')
+    for desc in c10.SI_CORPUS:
+        check_case(ctx, out, desc, 'si_corpus')
     rng = ctx.rng('random')
     n_random = 110 if ctx.quick else 1800
     reserve = 8 if ctx.quick else 60
@@ -300,6 +359,17 @@ def run(ctx, out):
             if ok: break
             out.count('rejected_degenerate:' + why)
         check_case(ctx, out, desc)
+        # unit-scale stream: the same circuit in realistic SI units
+        if rng.random() < (0.3 if ctx.quick else 1.0):
+            gs.run_sequence(out, EXTRA_CANON, [desc, gs.si_desc(rng, desc, exact=True), gs.si_desc(rng, desc, exact=False)],
+                            lambda d: check_case(ctx, out, d, 'si'))
+        # revisit stream: same circuit and ids, ONLY the L / C values differ (the w = 0 network handed to the
+        # state-space builder is identical), same process, both orders
+        if rng.random() < (0.3 if ctx.quick else 1.0):
+            d2 = gs.vary_values(rng, desc, kinds=('C', 'L'))
+            first, second = (desc, d2) if rng.random() < 0.5 else (d2, desc)
+            gs.run_sequence(out, EXTRA_CANON, [first, second, first], lambda d: check_case(ctx, out, d, 'revisit'))
+            out.count('revisit_sequences')
         # value-variation stream: the same description (ids, nodes, order) with other R, L, C values in
         # the same process, then the first one again — state leaking between analyses would show here
         if rng.random() < (0.3 if ctx.quick else 1.0):
